@@ -125,10 +125,13 @@ def execute(spec, cfg, prefix, mons=None, **kw):
     """one execution of the real engine + the spec's end-of-execution oracle (twin runs)"""
     if mons is None:
         mons = list(spec.monitors(cfg))
-    res = harness.run(cfg, prefix, mons, **kw)
+    keep = kw.pop("keep_Q", False)
+    res = harness.run(cfg, prefix, mons, keep_Q=True, **kw)
     if hasattr(spec, "post"):
         for clause, detail in spec.post(cfg, res, mons):
             res.violations.append(harness.Violation(spec.id, clause, detail, res.nevents, None))
+    if not keep:
+        res.Q = None
     return res
 
 
